@@ -40,7 +40,7 @@ TARGETS = [
     ("arity", "N_Arity", "PL5", 2, 0, 0),
 ]
 
-CMDS = {"Start", "PrepOk", "PrepFail", "Done", "ExecReply", "Evict", "Forget", "Cancel"}
+CMDS = {"Start", "PrepOk", "PrepFail", "PrepLost", "Done", "ExecReply", "Evict", "Forget", "Cancel"}
 RES = {"ok": "ok", "err_prepare": "prepare", "err_arity": "arity", "err_ctx": "ctx", "err_unprepared": "unprepared", "none": "none"}
 KS = {"k1": "ks1", "k2": "ks2"}
 
@@ -60,7 +60,7 @@ KEYS = {
     "ResultMetaMismatch": ("result-meta-mismatch", "rows were decoded with result metadata that does not belong to the executed id"),
     "BindMetaMismatch": ("bind-meta-mismatch", "a binding callback was handed the id / bind metadata of another statement"),
     "CapExceeded": ("cap-exceeded", "the prepared-statement cache exceeded its configured size"),
-    "WaiterNotWoken": ("waiter-not-woken", "an executor waiting on an answered PREPARE never returned"),
+    "PrepareWaiterNeverReturns": ("prepare-waiter-never-returns", "an executor waiting on a PREPARE that was answered or has failed never returned"),
     "Panic": ("executor-panic", "an execution panicked inside the driver instead of returning a result or an error"),
 }
 
@@ -116,7 +116,7 @@ def translate(plan, steps, name, n, maxlru, uniq, flip=0):
     for a, st in steps:
         if a["a"] in ("Start", "Lookup"):
             looks[str(emap[a["e"]])] += 1
-        elif a["a"] == "PrepFail":
+        elif a["a"] in ("PrepFail", "PrepLost"):
             failed.add(a["f"])
         elif a["a"] == "Done" and a["f"] in failed:
             removes += 1
@@ -134,6 +134,8 @@ def translate(plan, steps, name, n, maxlru, uniq, flip=0):
         c = dict(a=a["a"], e=emap.get(a["e"], 0), f=a["f"], key=[], kind=a["kind"], exp=exp)
         if a["a"] == "Forget":
             c["key"] = [a["k"][0], KS[a["k"][1]], a["k"][2]]
+        if a["a"] == "PrepFail":   # answered with an ERROR frame / with a frame the driver cannot parse, in turn
+            c["kind"] = ["error", "garbage"][(n + a["f"] + flip) % 2]
         out.append(c)
     return dict(n=n, name=name + ("/flip" if flip else ""), max=maxlru, uniq=uniq, hosts=hosts, conns=conns, execs=execs, steps=out)
 
